@@ -929,7 +929,10 @@ def add_perception_cases(batch, name, mol, req, lim, sus):
             ctx.dist('perceived-hypotheses=%s' % (' '.join(map(str, res[1])) if res[0] == 'ok' else res))
             if res[0] != 'ok':
                 return f'perception hypotheses: model {res} [{name}]'
-            t, k, d = res[1]
+            t, k, d, hyp = res[1]
+            if hyp == 1 and d != 1:
+                return (f'theorem keys_disjoint_without_hypervalent contradicted by the executable model: noHyperDoubleb=1 but '
+                        f'keysDisjointb=0 [{name}]')
             if lim and (t != 1 or k != 1):
                 return (f'hypotheses of the perceived stereo round-trip theorem do not hold on a real molecule: terminals-equal={t} '
                         f'marks-on-perceived-centres={k} [{name}]')
